@@ -36,6 +36,10 @@ pub const LOCAL_STATEMENTS: &[&str] = &[
     "local a = m.k",
     "local a: number = 1",
     "const a = 1",
+    // a nested function whose parameter shadows the name, before a real read of it
+    "local b = {(function(a) return a end)(5), a}",
+    "local b = {function(a) return a end, a}",
+    "local c = function() local f = function(a) return a end return f(6), a end",
 ];
 
 /// all sequences of `n` consecutive local declarations followed by an observation of the names
@@ -93,6 +97,8 @@ pub fn function_programs() -> Vec<String> {
         "local function outer()\n  local function inner(n) if n > 0 then return inner(n - 1) end return \"done\" end\n  return inner(2)\nend\nreturn outer()",
         "do local function f() return 1 end E1(f()) end\nreturn 1",
         "local function f<T>(a: T): T return a end\nreturn f(1)",
+        "local function walk(n) local g = function(walk) return walk end if n > 0 then return walk(n - 1) end return g(\"done\") end\nreturn walk(2)",
+        "local function walk(n) local t2 = {function(walk) return walk end, walk} if n > 0 then return t2[2](n - 1) end return t2[1](\"done\") end\nreturn walk(2)",
         "@native local function nf() return 1 end\nreturn nf()",
         "const function cf() return 1 end\nreturn cf()",
         "function g3() function g4() return 4 end return g4() end\nreturn g3(), g4()",
@@ -136,6 +142,11 @@ pub fn method_call_programs() -> Vec<String> {
         "m:f()",
         "t.a:m2()",
         "o:m(o:m(2))",
+        "(EI(t).a):m2()",
+        "((EI(t)).a):m2()",
+        "(EI(t)[\"a\"]):m2()",
+        "(t.a):m2()",
+        "(EI(o)).m(EI(o), 3)",
         "o:m(1):rep(1)",
     ] {
         for ctx in ["return @", "@\nreturn 1", "local r = @\nreturn r", "return (@)", "E1(@)", "if @ then return 1 end", "return {@}"] {
